@@ -67,6 +67,16 @@ static std::vector<std::string> drop_empty_dtd(const std::vector<std::string>& i
     }
     return o;
 }
+// absent public/system identifiers are null in some APIs and "" in others: same information
+static std::vector<std::string> norm_lines(const std::vector<std::string>& in) {
+    std::vector<std::string> o;
+    for (auto l : in) {
+        if (l.compare(0, 3, "DT|") == 0) { size_t p; while ((p = l.find("|~")) != std::string::npos) l.erase(p + 1, 1); }
+        if ((l.compare(0, 4, "IE|%") == 0) || (l.compare(0, 4, "XE|%") == 0)) continue;  // SAX2 reports parameter entities as %name; the reference skips them
+        o.push_back(l);
+    }
+    return o;
+}
 static std::string dt_line(const std::vector<std::string>& in) {
     for (auto& l : in) if (l.compare(0, 3, "DT|") == 0) return l;
     return "";
@@ -98,31 +108,50 @@ static void diff_violation(Ctx& c, const char* kind, const std::string& doc, con
     }
 }
 
-static const std::set<std::string> DROP_FOR_EXPAT_X = {"ED", "AD", "RS", "RE", "SK"};          // from Xerces SAX2 side
+static const std::set<std::string> DROP_FOR_EXPAT_X = {"ED", "AD", "RS", "RE", "SK", "DC"};          // from Xerces SAX2 side
 static const std::set<std::string> DROP_FOR_EXPAT_E = {"DPI", "DC"};                           // from expat side (DTD-internal PI/comment)
-static const std::set<std::string> DROP_SAX2_TO_SAX1 = {"C", "CS", "CE", "DT", "DTE", "IE", "XE", "ED", "AD", "RS", "RE", "NS+", "NS-", "SK"};
-static const std::set<std::string> DROP_DOMCMP = {"DT", "NO", "UE", "DENT", "IE", "XE", "ED", "AD", "RS", "RE", "L", "NS+", "NS-", "SK", "DTE"};
+static const std::set<std::string> DROP_SAX2_TO_SAX1 = {"DC", "C", "CS", "CE", "DT", "DTE", "IE", "XE", "ED", "AD", "RS", "RE", "NS+", "NS-", "SK"};
+static const std::set<std::string> DROP_DOMCMP = {"DC", "DT", "NO", "UE", "DENT", "IE", "XE", "ED", "AD", "RS", "RE", "L", "NS+", "NS-", "SK", "DTE"};
 
-static void run_s1(uint64_t idx, Ctx& c) {
-    std::string doc = doc_of(idx);
-    bool dt = has_doctype(idx);
+struct DocCase {
+    std::string doc;
+    bool doctype = false;                                      // uses a DOCTYPE (not claimed for WF/SG)
+    std::vector<std::pair<std::string, std::string>> files;    // VFS content (external subset / entities)
+    int expect = -1;                                           // by-construction verdict: 1 well-formed, 0 malformed, -1 unknown
+    bool ref_usable = true;                                    // expat can judge this document (XML 1.0, encoding known to it)
+    std::string label;
+};
+
+static void check_doc(const DocCase& dc, Ctx& c) {
+    const std::string& doc = dc.doc;
+    bool dt = dc.doctype;
     g_vfs->clear();
+    for (auto& f : dc.files) g_vfs->put(f.first, f.second);
     ParseIO io; io.bytes = doc;
     for (int ns = 0; ns < 2; ns++) {
         if (!(g_nsmask & (1 << ns))) continue;
         ExpatRef ref;
-        ref.run(doc, ns != 0);
-        c.count(ref.ok ? "ref_wellformed" : "ref_malformed");
-        std::vector<std::string> refP = drop_empty_dtd(project(ref.d.lines, DROP_FOR_EXPAT_E, true));
+        bool haveRef = dc.ref_usable;
+        if (haveRef) ref.run(doc, ns != 0);
+        bool refOk = haveRef ? ref.ok : (dc.expect == 1);
+        if (haveRef && dc.expect >= 0 && (dc.expect == 1) != ref.ok) {
+            // generator label and reference disagree: the harness (not the library) is wrong somewhere
+            c.violation("harness-label-vs-reference", "\"doc\":" + jstr(doc) + ",\"label\":" + jstr(dc.label) + ",\"expect\":" + std::to_string(dc.expect) + ",\"ref_err\":" + jstr(ref.err));
+            continue;
+        }
+        c.count(refOk ? "ref_wellformed" : "ref_malformed");
+        std::vector<std::string> refP = norm_lines(drop_empty_dtd(project(ref.d.lines, DROP_FOR_EXPAT_E, true)));
         std::vector<std::string> sax2IG;
         for (int sc = 0; sc < 4; sc++) {
             if (!(g_scn & (1 << sc))) continue;
             if (dt && (sc == WF || sc == SG)) { c.count("skipped_doctype_for_wf_sg"); continue; }
             if (sc == SG && !ns) { c.count("skipped_sg_without_namespaces"); continue; }  // the schema scanner always does namespace processing
-            std::vector<std::string> sax2, sax1;
-            for (int api : {SAX2, SAX1, PULL, DOM, DOMLS}) {
+            std::vector<std::string> sax2, sax1, dom;
+            for (int api : {(int)SAX2, (int)SAX1, (int)PULL, (int)DOM, (int)DOMLS, 100 /* DOM with entity-reference nodes */}) {
+                bool erefs = api == 100;
+                if (erefs) { api = DOM; if (!dt || sc != IG) continue; }
                 if (!(g_apis & (1 << api))) continue;
-                Config cfg; cfg.api = api; cfg.scanner = sc; cfg.ns = ns; cfg.nsPrefixes = true; cfg.val = 0;
+                Config cfg; cfg.api = api; cfg.scanner = sc; cfg.ns = ns; cfg.nsPrefixes = true; cfg.val = 0; cfg.entRefNodes = erefs;
                 ParseResult r = parse_xerces(cfg, io);
                 c.count("parses");
                 if (r.exc.compare(0, 7, "FOREIGN") == 0) {
@@ -130,21 +159,29 @@ static void run_s1(uint64_t idx, Ctx& c) {
                     continue;
                 }
                 bool accepted = r.ok();
-                if (accepted != ref.ok) {
-                    c.violation(ref.ok ? "wellformed-rejected" : "malformed-accepted",
-                                "\"doc\":" + jstr(doc) + ",\"doc_hex\":" + jstr(hexs(doc)) + ",\"config\":" + jstr(cfg.str()) + ",\"ref_err\":" + jstr(ref.err) +
+                if (accepted != refOk) {
+                    c.violation(refOk ? "wellformed-rejected" : "malformed-accepted",
+                                "\"doc\":" + jstr(doc) + ",\"doc_hex\":" + jstr(hexs(doc)) + ",\"config\":" + jstr(cfg.str()) + ",\"label\":" + jstr(dc.label) + ",\"ref_err\":" + jstr(ref.err) +
                                     ",\"xerces_errors\":" + jstr(r.errors.empty() ? r.exc : r.errors[0]));
-                    if (c.verbose) printf("verdict mismatch %s: ref.ok=%d xerces fatals=%d exc=%s\n", cfg.str().c_str(), ref.ok, r.fatals, r.exc.c_str());
+                    if (c.verbose) printf("verdict mismatch %s: ref.ok=%d xerces fatals=%d exc=%s\n", cfg.str().c_str(), refOk, r.fatals, r.exc.c_str());
                     continue;
                 }
                 if (!accepted || !g_content) continue;
                 c.count("content_compared");
+                if (erefs) {  // entity-reference nodes only add RS/RE brackets around the same content
+                    std::vector<std::string> a = project(dom, {"RS", "RE"}, false), b = project(r.d.lines, {"RS", "RE"}, false);
+                    int at = first_diff(a, b);
+                    if (at >= 0) diff_violation(c, "dom-entrefs-vs-dom", doc, cfg.str(), a, b, at);
+                    continue;
+                }
                 if (api == SAX2) {
                     sax2 = r.d.lines;
-                    std::vector<std::string> xp = drop_empty_dtd(project(r.d.lines, DROP_FOR_EXPAT_X, true));
-                    if (ns) xp = drop_xmlns(xp);
-                    int at = first_diff(refP, xp);
-                    if (at >= 0) diff_violation(c, "content-vs-reference", doc, cfg.str(), refP, xp, at);
+                    if (haveRef) {
+                        std::vector<std::string> xp = norm_lines(drop_empty_dtd(project(r.d.lines, DROP_FOR_EXPAT_X, true)));
+                        if (ns) xp = drop_xmlns(xp);
+                        int at = first_diff(refP, xp);
+                        if (at >= 0) diff_violation(c, "content-vs-reference", doc, cfg.str(), refP, xp, at);
+                    }
                     if (sc == IG) sax2IG = r.d.lines;
                     else if (!sax2IG.empty() || (g_scn & 1)) {
                         int at2 = first_diff(sax2IG, r.d.lines);
@@ -153,22 +190,381 @@ static void run_s1(uint64_t idx, Ctx& c) {
                 } else if (api == SAX1 && !sax2.empty()) {
                     sax1 = r.d.lines;
                     std::vector<std::string> a = project(sax2, DROP_SAX2_TO_SAX1, false);
-                    int at = first_diff(a, r.d.lines);
-                    if (at >= 0) diff_violation(c, "sax1-vs-sax2", doc, cfg.str(), a, r.d.lines, at);
+                    std::vector<std::string> b = project(r.d.lines, {}, false);
+                    int at = first_diff(a, b);
+                    if (at >= 0) diff_violation(c, "sax1-vs-sax2", doc, cfg.str(), a, b, at);
                 } else if (api == PULL && !sax1.empty()) {
                     int at = first_diff(sax1, r.d.lines);
                     if (at >= 0) diff_violation(c, "pull-vs-sax1", doc, cfg.str(), sax1, r.d.lines, at);
                 } else if ((api == DOM || api == DOMLS) && !sax2.empty()) {
+                    if (api == DOM) dom = r.d.lines;
                     std::vector<std::string> a = project(sax2, DROP_DOMCMP, false), b = project(r.d.lines, DROP_DOMCMP, false);
                     int at = first_diff(a, b);
                     if (at >= 0) diff_violation(c, api == DOM ? "dom-vs-sax2" : "domls-vs-sax2", doc, cfg.str(), a, b, at);
-                    std::string d1 = dt_line(sax2), d2 = dt_line(r.d.lines);
+                    std::string d1 = dt_line(norm_lines(sax2)), d2 = dt_line(norm_lines(r.d.lines));
                     if (!d1.empty() && d1 != d2) diff_violation(c, "doctype-dom-vs-sax2", doc, cfg.str(), {d1}, {d2}, 0);
+                    if (haveRef) {  // DOM against the reference directly: attribute specified/defaulted flags, notations, unparsed entities
+                        static const std::set<std::string> dropD = {"DT", "DTE", "DENT", "L"}, dropE = {"DT", "DTE", "IE", "XE", "L", "NS+", "NS-", "DPI", "DC", "NO", "UE"};
+                        std::vector<std::string> rp = project(ref.d.lines, dropE, true), dp = project(r.d.lines, {"DT", "DTE", "DENT", "L", "NO", "UE"}, true);
+                        if (ns) dp = drop_xmlns(dp);
+                        int at3 = first_diff(rp, dp);
+                        if (at3 >= 0) diff_violation(c, "dom-vs-reference", doc, cfg.str(), rp, dp, at3);
+                        std::vector<std::string> rn, dn;
+                        for (auto& l : ref.d.lines) if (l.compare(0, 3, "NO|") == 0 || l.compare(0, 3, "UE|") == 0) rn.push_back(l);
+                        for (auto& l : r.d.lines) if (l.compare(0, 3, "NO|") == 0 || l.compare(0, 3, "UE|") == 0) dn.push_back(l);
+                        std::sort(rn.begin(), rn.end()); std::sort(dn.begin(), dn.end());
+                        int at4 = first_diff(rn, dn);
+                        if (at4 >= 0) diff_violation(c, "dom-notations-entities-vs-reference", doc, cfg.str(), rn, dn, at4);
+                    }
                 }
             }
         }
     }
-    if (idx % 9973 == 0) c.sample("{\"doc\":" + jstr(doc) + "}");
+}
+
+static void run_s1(uint64_t idx, Ctx& c) {
+    DocCase dc; dc.doc = doc_of(idx); dc.doctype = has_doctype(idx);
+    check_doc(dc, c);
+    if (idx % 9973 == 0) c.sample("{\"doc\":" + jstr(dc.doc) + "}");
+}
+
+// ---------------------------------------------------------------------------------------------- s4: DTD-rich structured space
+struct Prolog { std::string text; bool doctype; std::vector<std::pair<std::string, std::string>> files; };
+static std::vector<Prolog> PROLOGS;
+static std::vector<std::string> ROOTATTR, ITEMS;
+static void init_s4() {
+    PROLOGS.push_back({"", false, {}});
+    PROLOGS.push_back({"<?xml version=\"1.0\"?>\n<!-- pre --><?pp q?>\n", false, {}});
+    PROLOGS.push_back({"<!DOCTYPE r [<!ENTITY e \"ev\"><!ENTITY m \"<i>m</i>\"><!ENTITY n \"&e;&#38;lt;\"><!ENTITY cr \"&#13;&#10;&#9;\"><!ENTITY lt2 \"&#38;#60;\">]>", true, {}});
+    PROLOGS.push_back({"<!DOCTYPE r [<!ATTLIST r d CDATA \"dv\" t NMTOKENS \" a  b \" i ID #IMPLIED f CDATA #FIXED \"fx\">\n<!ATTLIST c d (x|y) \"x\" a CDATA #IMPLIED>\n<!ENTITY e \"ev\">]>", true, {}});
+    PROLOGS.push_back({"<!DOCTYPE r SYSTEM \"ext.dtd\">", true, {{"/v/ext.dtd", "<?xml version='1.0' encoding='UTF-8'?><!ENTITY e \"xv\"><!ATTLIST r d CDATA \"xd\">\r\n<!ELEMENT r (c|i|j)*><!ELEMENT c EMPTY><!ENTITY m \"<i/>\">"}}});
+    PROLOGS.push_back({"<!DOCTYPE r [<!ENTITY x SYSTEM \"x.ent\"><!ENTITY e \"ev\">]>", true, {{"/v/x.ent", "<?xml version=\"1.0\" encoding=\"UTF-8\"?>xt<j/>\r\ny\r"}}});
+    PROLOGS.push_back({"<!DOCTYPE r [<!ENTITY % p \"<!ENTITY e 'pv'>\">%p;<!NOTATION n SYSTEM \"n.exe\"><!NOTATION o PUBLIC \"pubo\"><!ENTITY u SYSTEM \"u.bin\" NDATA n><!-- dc --><?dpi x?>]>", true, {}});
+    PROLOGS.push_back({"<!DOCTYPE r [<!ELEMENT r (c|i|j)*><!ELEMENT c EMPTY><!ENTITY e \"ev\">]>", true, {}});
+    PROLOGS.push_back({"<?xml version=\"1.0\" standalone=\"yes\"?><!DOCTYPE r [<!ENTITY e \"ev\"><!ATTLIST r d CDATA \"dv\">]>", true, {}});
+    PROLOGS.push_back({"<!DOCTYPE r PUBLIC \"-//P//Q\" \"sub/ext2.dtd\" [<!ENTITY e \"iv\">]>", true, {{"/v/sub/ext2.dtd", "<!ENTITY e \"xv\"><!ENTITY % q SYSTEM \"q.pe\">%q;"}, {"/v/sub/q.pe", "<!ENTITY m \"<i>q</i>\">"}}});
+    ROOTATTR = {"", " d='o'", " t=' x  y '", "\nf='fx' i='r1'"};
+    ITEMS = {"t", " ", "\n", "\r\n", "\r", "\t", "&e;", "&m;", "&n;", "&cr;", "&lt2;", "&x;", "&#13;", "&#10;&#9;", "&#x20AC;", "&#x10000;", "\xC3\xA9",
+             "<![CDATA[d]]>", "<![CDATA[]]>", "<![CDATA[<&]]]]>", "<!--k-->", "<?q r?>", "<?q?>", "<c/>", "<c d='y'/>", "<c d='z'/>", "<i>v</i>",
+             "<c a=' &e; &#13;&#10; \r\n\t'/>", "<c a='&m;'/>", "<c a=\"'&quot;&lt;\"/>", "<c  a = 'v' \n/>", "<r:c xmlns:r='u' r:a='1'/>", "<c i='id1'/>",
+             "&u;", "]]", ">", "<i>\n<c/>\n</i>"};
+}
+static int g_s4_attrs = 4;
+static DocCase s4_case(uint64_t idx) {
+    uint64_t nw = words_upto(ITEMS.size(), g_k);
+    uint64_t w = idx % nw; idx /= nw;
+    int ra = (int)(idx % g_s4_attrs); idx /= g_s4_attrs;
+    const Prolog& p = PROLOGS[idx % PROLOGS.size()];
+    DocCase dc; dc.doctype = p.doctype; dc.files = p.files;
+    dc.doc = p.text + "<r" + ROOTATTR[ra] + ">";
+    for (int t : word_at(w, ITEMS.size(), g_k)) dc.doc += ITEMS[t];
+    dc.doc += "</r>\n<!-- post -->";
+    return dc;
+}
+static void run_s4(uint64_t idx, Ctx& c) {
+    DocCase dc = s4_case(idx);
+    check_doc(dc, c);
+    if (idx % 9973 == 0) c.sample("{\"doc\":" + jstr(dc.doc) + "}");
+}
+
+// ---------------------------------------------------------------------------------------------- s3: catalogue of single-constraint violations / tricky well-formed documents
+static std::vector<DocCase> CAT;
+static std::string u16(const std::u16string& t, bool be, bool bom) {
+    std::string o;
+    auto put = [&](unsigned u) { if (be) { o += (char)(u >> 8); o += (char)(u & 255); } else { o += (char)(u & 255); o += (char)(u >> 8); } };
+    if (bom) put(0xFEFF);
+    for (char16_t ch : t) put(ch);
+    return o;
+}
+static void init_s3() {
+    auto bad = [&](const std::string& label, const std::string& doc, bool dt = false, bool ref = true) { DocCase d; d.doc = doc; d.label = label; d.expect = 0; d.doctype = dt; d.ref_usable = ref; CAT.push_back(d); };
+    auto good = [&](const std::string& label, const std::string& doc, bool dt = false, bool ref = true) { DocCase d; d.doc = doc; d.label = label; d.expect = 1; d.doctype = dt; d.ref_usable = ref; CAT.push_back(d); };
+    auto many_attrs = [](int n, int dupAt) { std::string s = "<a"; for (int i = 0; i < n; i++) s += " a" + std::to_string(i == dupAt ? 0 : i) + "='v'"; return s + "/>"; };
+    auto nest = [](int n) { std::string s; for (int i = 0; i < n; i++) s += "<e" + std::to_string(i % 3) + ">"; for (int i = n - 1; i >= 0; i--) s += "</e" + std::to_string(i % 3) + ">"; return s; };
+    // element structure
+    bad("mismatched-tag", "<a><b></a></b>"); bad("unclosed-root", "<a>"); bad("second-root", "<a/><b/>"); bad("text-after-root", "<a/>x"); bad("text-before-root", "x<a/>");
+    bad("no-root", "<!--c-->"); bad("empty", ""); bad("end-tag-only", "</a>"); bad("tag-space", "< a/>"); bad("end-tag-attr", "<a></a x='1'>");
+    bad("name-start-digit", "<1a/>"); bad("name-start-dash", "<-a/>"); good("name-with-dash-dot", "<a-b.c_d/>"); good("name-colon-nsoff-only", "<a/>");
+    // attributes
+    bad("dup-attr", "<a x='1' x='2'/>"); bad("attr-no-value", "<a x/>"); bad("attr-no-quote", "<a x=1/>"); bad("attr-lt", "<a x='<'/>"); bad("attr-unterminated", "<a x='1/>");
+    bad("attr-no-space", "<a x='1'y='2'/>"); good("attr-ws-around-eq", "<a x = '1'\n\ty\r\n=\r\"2\"/>"); good("attr-gt", "<a x='>'/>"); good("attr-both-quotes", "<a x='\"' y=\"'\"/>");
+    for (int n : {31, 32, 33, 99, 100, 101, 102, 103, 130}) {
+        good("attrs-" + std::to_string(n), many_attrs(n, -1));
+        bad("attrs-" + std::to_string(n) + "-dup-last", many_attrs(n, n - 1));
+        bad("attrs-" + std::to_string(n) + "-dup-mid", many_attrs(n, n / 2));
+    }
+    for (int n : {31, 32, 33, 34, 64, 65, 100}) good("nest-" + std::to_string(n), nest(n));
+    // character data and references
+    bad("cdata-end-in-text", "<a>]]></a>"); good("brackets-in-text", "<a>]] ></a>"); bad("bare-amp", "<a>&</a>"); bad("bare-lt", "<a><</a>"); good("bare-gt", "<a>></a>");
+    bad("ref-no-semicolon", "<a>&lt</a>"); bad("ref-undeclared", "<a>&u;</a>"); bad("charref-zero", "<a>&#0;</a>"); bad("charref-surrogate", "<a>&#xD800;</a>");
+    bad("charref-ffff", "<a>&#xFFFF;</a>"); bad("charref-fffe", "<a>&#xFFFE;</a>"); bad("charref-too-big", "<a>&#x110000;</a>"); bad("charref-empty", "<a>&#;</a>"); bad("charref-hex-upper-x", "<a>&#X41;</a>");
+    bad("charref-c0", "<a>&#1;</a>"); good("charref-tab-lf-cr", "<a>&#9;&#10;&#13;</a>"); good("charref-max", "<a>&#x10FFFF;</a>"); good("charref-fffd", "<a>&#xFFFD;</a>"); good("charref-leading-zeros", "<a>&#0000065;&#x00041;</a>");
+    bad("ctrl-char", "<a>\x01</a>"); bad("ctrl-char-1f", "<a>\x1f</a>"); good("del-char", "<a>\x7f</a>"); bad("ffff-raw", "<a>\xEF\xBF\xBF</a>"); bad("fffe-raw", "<a>\xEF\xBF\xBE</a>"); good("fffd-raw", "<a>\xEF\xBF\xBD</a>");
+    // comments, PIs, CDATA
+    bad("comment-dashes", "<a><!--x--y--></a>"); bad("comment-ends-dash", "<a><!--x---></a>"); good("comment-single-dash", "<a><!--x-y- --></a>"); bad("comment-unterminated", "<a><!--x</a>");
+    bad("pi-xml", "<a><?xml x?></a>"); bad("pi-XML", "<a><?XML x?></a>"); bad("pi-XmL", "<a><?XmL x?></a>"); good("pi-xmlx", "<a><?xmlx x?></a>"); good("pi-xml-stylesheet", "<?xml-stylesheet x?><a/>");
+    bad("pi-unterminated", "<a><?p x></a>"); bad("pi-no-target", "<a><? x?></a>"); good("pi-empty-data", "<a><?p?><?p ?></a>"); bad("pi-no-space", "<a><?p+?></a>");
+    bad("cdata-unterminated", "<a><![CDATA[x</a>"); bad("cdata-outside-root", "<![CDATA[x]]><a/>"); bad("cdata-lowercase", "<a><![cdata[x]]></a>"); good("cdata-brackets", "<a><![CDATA[]]]]><![CDATA[>]]></a>");
+    // XML declaration
+    bad("decl-not-first", " <?xml version='1.0'?><a/>"); bad("decl-after-comment", "<!--c--><?xml version='1.0'?><a/>"); bad("decl-no-version", "<?xml encoding='UTF-8'?><a/>");
+    bad("decl-bad-order", "<?xml version='1.0' standalone='yes' encoding='UTF-8'?><a/>"); bad("decl-bad-standalone", "<?xml version='1.0' standalone='maybe'?><a/>");
+    bad("decl-bad-encname", "<?xml version='1.0' encoding='8859'?><a/>"); bad("decl-version-2", "<?xml version='2.0'?><a/>", false, false); bad("decl-version-empty", "<?xml version=''?><a/>", false, false);
+    bad("decl-dup-version", "<?xml version='1.0' version='1.0'?><a/>"); bad("decl-unknown-attr", "<?xml version='1.0' foo='x'?><a/>"); good("decl-full", "<?xml version=\"1.0\" encoding=\"utf-8\" standalone='no' ?><a/>");
+    bad("decl-mixed-quotes", "<?xml version='1.0\"?><a/>"); bad("decl-uppercase", "<?XML version='1.0'?><a/>");
+    // encodings / bytes
+    bad("utf8-truncated-2", "<a>\xC3</a>"); bad("utf8-overlong-c0", "<a>\xC0\x80</a>"); bad("utf8-overlong-e0", "<a>\xE0\x80\x80</a>"); bad("utf8-surrogate", "<a>\xED\xA0\x80</a>");
+    bad("utf8-f4-90", "<a>\xF4\x90\x80\x80</a>"); bad("utf8-f8", "<a>\xF8\x88\x80\x80\x80</a>"); bad("utf8-lone-cont", "<a>\x80</a>"); bad("utf8-ff", "<a>\xFF</a>"); bad("utf8-trunc-at-eof", "<a/>\xE2\x82");
+    good("utf8-bom", "\xEF\xBB\xBF<a/>"); good("utf8-4byte", "<a>\xF0\x90\x80\x80\xF4\x8F\xBF\xBF</a>"); good("utf8-name", "<\xC3\xA9 \xC3\xA8='1'/>"); bad("utf8-name-start-combining", "<\xCC\x81/>");
+    good("utf16le-bom", u16(u"<a/>", false, true)); good("utf16be-bom", u16(u"<a/>", true, true)); bad("utf16le-odd", u16(u"<a/>", false, true) + "A");
+    good("utf16le-nobom-decl", u16(u"<?xml version='1.0' encoding='UTF-16'?><a/>", false, false)); good("utf16be-nobom-decl", u16(u"<?xml version='1.0' encoding='UTF-16'?><a/>", true, false));
+    bad("utf16le-lone-high", u16(std::u16string(u"<a>") + char16_t(0xD800) + u"</a>", false, true)); bad("utf16le-lone-low", u16(std::u16string(u"<a>") + char16_t(0xDC00) + u"</a>", false, true));
+    bad("utf16le-reversed-pair", u16(std::u16string(u"<a>") + char16_t(0xDC00) + char16_t(0xD800) + u"</a>", false, true));
+    good("utf16le-pair", u16(std::u16string(u"<a>") + char16_t(0xD800) + char16_t(0xDC00) + u"</a>", false, true)); good("utf16be-pair", u16(std::u16string(u"<a>") + char16_t(0xDBFF) + char16_t(0xDFFF) + u"</a>", true, true));
+    bad("utf16-ffff", u16(std::u16string(u"<a>") + char16_t(0xFFFF) + u"</a>", false, true)); good("latin1-decl", "<?xml version='1.0' encoding='ISO-8859-1'?><a>\xE9</a>");
+    bad("ascii-decl-highbit", "<?xml version='1.0' encoding='US-ASCII'?><a>\xE9</a>", false, false);
+    // DOCTYPE / entities
+    bad("doctype-after-root", "<a/><!DOCTYPE a>", true); bad("doctype-twice", "<!DOCTYPE a><!DOCTYPE a><a/>", true); bad("doctype-in-root", "<a><!DOCTYPE a></a>", true);
+    bad("entity-recursive", "<!DOCTYPE a [<!ENTITY e '&f;'><!ENTITY f '&e;'>]><a>&e;</a>", true); bad("entity-self", "<!DOCTYPE a [<!ENTITY e 'x&e;'>]><a>&e;</a>", true);
+    bad("entity-partial-markup", "<!DOCTYPE a [<!ENTITY e '<b>'>]><a>&e;</b></a>", true); bad("entity-partial-end", "<!DOCTYPE a [<!ENTITY e '</a>'>]><a>&e;", true);
+    bad("entity-lt-in-attr", "<!DOCTYPE a [<!ENTITY e '<'>]><a x='&e;'/>", true); good("entity-lt-charref-in-attr", "<!DOCTYPE a [<!ENTITY e '&#38;#60;'>]><a x='&e;'/>", true);
+    bad("entity-external-in-attr", "<!DOCTYPE a [<!ENTITY e SYSTEM 'x.ent'>]><a x='&e;'/>", true); bad("entity-unparsed-ref", "<!DOCTYPE a [<!NOTATION n SYSTEM 'n'><!ENTITY e SYSTEM 'x' NDATA n>]><a>&e;</a>", true);
+    bad("pe-in-internal-markup", "<!DOCTYPE a [<!ENTITY % p 'x'><!ENTITY e '%p;'>]><a/>", true); good("entity-balanced-markup", "<!DOCTYPE a [<!ENTITY e '<b>x</b>'>]><a>&e;&e;</a>", true);
+    bad("entity-bare-amp-in-value", "<!DOCTYPE a [<!ENTITY e 'x&y'>]><a/>", true); good("entity-unused-undeclared-ref-in-value", "<!DOCTYPE a [<!ENTITY e '&zz;'>]><a/>", true);
+    bad("entity-used-undeclared-ref-in-value", "<!DOCTYPE a [<!ENTITY e '&zz;'>]><a>&e;</a>", true);
+    good("predefined-redeclared", "<!DOCTYPE a [<!ENTITY lt '&#38;#60;'><!ENTITY amp '&#38;#38;'>]><a>&lt;&amp;</a>", true);
+    bad("attlist-default-lt", "<!DOCTYPE a [<!ATTLIST a x CDATA '<'>]><a/>", true); bad("doctype-unterminated", "<!DOCTYPE a [<!ENTITY e 'v'>", true); bad("decl-in-content", "<a><!ENTITY e 'v'></a>");
+    bad("cond-section-internal", "<!DOCTYPE a [<![INCLUDE[<!ENTITY e 'v'>]]>]><a/>", true);
+}
+static int g_s3_wrap = 3;
+
+static DocCase s3_case(uint64_t idx) {
+    DocCase d = CAT[idx % CAT.size()];
+    return d;
+}
+static void run_s3(uint64_t idx, Ctx& c) {
+    DocCase dc = s3_case(idx);
+    check_doc(dc, c);
+    c.count(dc.expect == 1 ? "catalogue_wellformed" : "catalogue_malformed");
+    if (idx % 37 == 0) c.sample("{\"label\":" + jstr(dc.label) + ",\"doc\":" + jstr(dc.doc.substr(0, 200)) + "}");
+}
+
+// ---------------------------------------------------------------------------------------------- s11: XML 1.1 / 1.0 by-construction infoset (expat cannot speak 1.1)
+struct Item11 { std::string bytes; int ok10, ok11; std::string text10, text11; };  // expected text contributions as escaped (esc16-style) strings
+static std::vector<Item11> IT11;
+static void init_s11() {
+    IT11 = {
+        {"x", 1, 1, "x", "x"},
+        {"\n", 1, 1, "\\u000A", "\\u000A"}, {"\r\n", 1, 1, "\\u000A", "\\u000A"}, {"\r", 1, 1, "\\u000A", "\\u000A"},
+        {"\xC2\x85", 1, 1, "\\u0085", "\\u000A"},          // NEL: plain char in 1.0, line end in 1.1
+        {"\r\xC2\x85", 1, 1, "\\u000A\\u0085", "\\u000A"},  // CR NEL
+        {"\xE2\x80\xA8", 1, 1, "\\u2028", "\\u000A"},      // LSEP
+        {"&#x85;", 1, 1, "\\u0085", "\\u0085"}, {"&#x2028;", 1, 1, "\\u2028", "\\u2028"},
+        {"&#1;", 0, 1, "", "\\u0001"}, {"&#x1F;", 0, 1, "", "\\u001F"}, {"&#0;", 0, 0, "", ""},
+        {"\x01", 0, 0, "", ""},                            // raw C0 control: illegal in both
+        {"\xC2\x86", 1, 0, "\\u0086", ""},                 // raw C1 control: legal in 1.0, restricted in 1.1
+        {"&#x86;", 1, 1, "\\u0086", "\\u0086"},
+        {"\x7F", 1, 0, "\\u007F", ""}, {"&#x7F;", 1, 1, "\\u007F", "\\u007F"},
+        {"\t", 1, 1, "\\u0009", "\\u0009"},
+        {"<![CDATA[\xC2\x85]]>", 1, 1, "CD:\\u0085", "CD:\\u000A"},
+        {"<b a='\xC2\x85'/>", 1, 1, "AT:\\u0085", "AT: "},   // attribute value normalisation turns the (normalised) line end into a space
+        {"<b a='&#x85;'/>", 1, 1, "AT:\\u0085", "AT:\\u0085"},
+    };
+}
+static DocCase s11_case(uint64_t idx, std::string& expectT, int& version) {
+    uint64_t nw = words_upto(IT11.size(), g_k);
+    uint64_t w = idx % nw; idx /= nw;
+    version = (int)(idx % 2);  // 0 -> 1.0, 1 -> 1.1
+    DocCase dc; dc.ref_usable = false;
+    dc.doc = version ? "<?xml version='1.1'?><r>" : "<?xml version='1.0'?><r>";
+    bool ok = true;
+    expectT.clear();
+    bool pendingCR = false;  // previous raw item ended in a literal CR: a directly following raw LF (or NEL in 1.1) belongs to the same line end
+    for (int t : word_at(w, IT11.size(), g_k)) {
+        const Item11& it = IT11[t];
+        dc.doc += it.bytes;
+        ok = ok && (version ? it.ok11 : it.ok10);
+        std::string contrib = version ? it.text11 : it.text10;
+        bool rawLF = it.bytes == "\n", rawNEL = it.bytes == "\xC2\x85";
+        if (pendingCR && (rawLF || (version && rawNEL))) contrib = "";
+        pendingCR = (it.bytes == "\r");
+        expectT += contrib + "|";
+    }
+    dc.doc += "</r>";
+    dc.expect = ok ? 1 : 0;
+    return dc;
+}
+static void run_s11(uint64_t idx, Ctx& c) {
+    std::string expectT; int version;
+    DocCase dc = s11_case(idx, expectT, version);
+    c.count(dc.expect ? "ref_wellformed" : "ref_malformed");
+    ParseIO io; io.bytes = dc.doc;
+    for (int sc = 0; sc < 4; sc++) for (int api : {SAX2, SAX1, DOM, DOMLS, PULL}) {
+        Config cfg; cfg.api = api; cfg.scanner = sc; cfg.ns = (sc == SG);
+        ParseResult r = parse_xerces(cfg, io);
+        c.count("parses");
+        if (r.exc.compare(0, 7, "FOREIGN") == 0) { c.violation("foreign-exception", "\"doc\":" + jstr(dc.doc) + ",\"config\":" + jstr(cfg.str())); continue; }
+        if (r.ok() != (dc.expect == 1)) {
+            c.violation(dc.expect ? "wellformed-rejected" : "malformed-accepted", "\"doc\":" + jstr(dc.doc) + ",\"doc_hex\":" + jstr(hexs(dc.doc)) + ",\"config\":" + jstr(cfg.str()) +
+                        ",\"xerces_errors\":" + jstr(r.errors.empty() ? r.exc : r.errors[0]));
+            continue;
+        }
+        if (!r.ok()) continue;
+        // rebuild the per-item text contributions from the dump: text between markers
+        std::string got;  // flatten: T| chunks concatenated, CDATA as CD:..., attribute values as AT:...
+        // The dump coalesces adjacent text, so compare the flattened character stream instead of per item boundaries.
+        std::string flatExpect, flatGot;
+        {
+            size_t i = 0;
+            while (i < expectT.size()) { size_t j = expectT.find('|', i); std::string part = expectT.substr(i, j - i); i = j + 1;
+                if (part.compare(0, 3, "CD:") == 0) flatExpect += (api == SAX1 || api == PULL) ? part.substr(3) : "[" + part.substr(3) + "]";
+                else if (part.compare(0, 3, "AT:") == 0) flatExpect += "{" + part.substr(3) + "}";
+                else flatExpect += part; }
+        }
+        bool inCd = false;
+        for (auto& l : r.d.lines) {
+            if (l.compare(0, 2, "T|") == 0) flatGot += l.substr(2);
+            else if (l == "CS") { flatGot += "["; inCd = true; }
+            else if (l == "CE") { flatGot += "]"; inCd = false; }
+            else if (l.compare(0, 4, "A|a|") == 0) { size_t e = l.find('|', 4); flatGot += "{" + l.substr(4, e - 4) + "}"; }
+        }
+        (void)inCd;
+        // an empty CDATA-free adjacent "][" cannot occur here; compare
+        c.count("content_compared");
+        if (flatGot != flatExpect)
+            c.violation("infoset-1.1-by-construction", "\"doc\":" + jstr(dc.doc) + ",\"doc_hex\":" + jstr(hexs(dc.doc)) + ",\"config\":" + jstr(cfg.str()) + ",\"expected\":" + jstr(flatExpect) + ",\"observed\":" + jstr(flatGot));
+    }
+    if (idx % 997 == 0) c.sample("{\"doc_hex\":" + jstr(hexs(dc.doc)) + ",\"version\":" + std::to_string(version) + "}");
+}
+
+// ---------------------------------------------------------------------------------------------- prefix: every proper byte prefix of every s4 (k<=1) document
+static std::vector<uint64_t> PFX_CUM;  // cumulative number of prefixes
+static std::vector<DocCase> PFX_DOCS;
+static void init_prefix() {
+    init_s4();
+    int savek = g_k; g_k = 1;
+    uint64_t n = words_upto(ITEMS.size(), 1) * g_s4_attrs * PROLOGS.size(), cum = 0;
+    for (uint64_t i = 0; i < n; i++) { DocCase d = s4_case(i); PFX_DOCS.push_back(d); cum += d.doc.size(); PFX_CUM.push_back(cum); }
+    g_k = savek;
+}
+static DocCase prefix_case(uint64_t idx) {
+    size_t di = std::upper_bound(PFX_CUM.begin(), PFX_CUM.end(), idx) - PFX_CUM.begin();
+    uint64_t base = di ? PFX_CUM[di - 1] : 0;
+    DocCase d = PFX_DOCS[di];
+    d.doc = d.doc.substr(0, idx - base);  // proper prefix: lengths 0 .. size-1
+    return d;
+}
+static void run_prefix(uint64_t idx, Ctx& c) {
+    DocCase dc = prefix_case(idx);
+    check_doc(dc, c);
+    if (idx % 9973 == 0) c.sample("{\"doc\":" + jstr(dc.doc) + "}");
+}
+
+// ---------------------------------------------------------------------------------------------- c01: robustness under the configuration product (oracle: survives, no sanitizer report, only documented exceptions, bounded time)
+static std::vector<std::string> DTDTOK, XSDTOK;
+static void init_c01_tokens() {
+    DTDTOK = {"<!ELEMENT a (b,c)>", "<!ELEMENT a (#PCDATA|b)*>", "<!ELEMENT a EMPTY>", "<!ELEMENT a ANY>", "<!ELEMENT a (b", "<!ELEMENT a (b|c,d)>", "<!ELEMENT a ((((((((b))))))))>",
+              "<!ELEMENT a (b?,(c|d)*,e+)+>", "<!ELEMENT a (b)><!ELEMENT a (c)>", "<!ELEMENT b (a*)>",
+              "<!ATTLIST a x CDATA #IMPLIED>", "<!ATTLIST a x ID #REQUIRED y IDREFS 'q'>", "<!ATTLIST a x (p|q|p) 'p'>", "<!ATTLIST a x NOTATION (n) #IMPLIED>", "<!ATTLIST a x CDATA #FIXED>", "<!ATTLIST a x ENTITIES 'u u'>",
+              "<!ATTLIST a xml:space (default|preserve) 'x'>", "<!ATTLIST a", "<!ATTLIST a x NMTOKENS ' '>",
+              "<!ENTITY e 'v'>", "<!ENTITY e '&e;'>", "<!ENTITY e '&#60;'>", "<!ENTITY e '<a>'>", "<!ENTITY % p 'x'>", "<!ENTITY % p '<!ENTITY e \"pv\">'>", "%p;", "<!ENTITY % q '%q;'>%q;", "<!ENTITY x SYSTEM 'x.ent'>", "<!ENTITY % xp SYSTEM 'x.pe'>%xp;",
+              "<!ENTITY u SYSTEM 'u' NDATA n>", "<!ENTITY e 'unterminated>", "<!ENTITY e PUBLIC 'p' >",
+              "<!NOTATION n SYSTEM 'n'>", "<!NOTATION n PUBLIC 'p'>", "<!NOTATION n>", "<![INCLUDE[<!ENTITY e 'i'>]]>", "<![IGNORE[<![INCLUDE[ x ]]> ]]>", "<![ %p; [ ]]>", "<![INCLUDE[",
+              "<!--c-->", "<?pi d?>", "<?xml version='1.0'?>", " ", "]", "<", "&e;", "\x01", "\xC3", "<!DOCTYPE a>", "<!ELEMENT \xC3\xA9 (#PCDATA)>"};
+    XSDTOK = {"<xs:element name='a' type='xs:string'/>", "<xs:element name='a'/>", "<xs:element name='a' type='t'/>", "<xs:element name='a' type='xs:int' default='x'/>", "<xs:element ref='a'/>",
+              "<xs:element name='a' minOccurs='2'/>", "<xs:element name='a' substitutionGroup='a'/>", "<xs:element name='b' substitutionGroup='a' type='xs:int'/>",
+              "<xs:complexType name='t'><xs:sequence><xs:element name='b' maxOccurs='unbounded'/><xs:element name='b' minOccurs='0'/></xs:sequence></xs:complexType>",
+              "<xs:complexType name='t'><xs:complexContent><xs:extension base='t'/></xs:complexContent></xs:complexType>",
+              "<xs:complexType name='t'><xs:all><xs:element name='b' maxOccurs='2'/></xs:all><xs:attribute name='x' use='required' default='1'/></xs:complexType>",
+              "<xs:complexType name='t'><xs:choice minOccurs='3' maxOccurs='2'><xs:any namespace='##other' processContents='lax'/></xs:choice><xs:anyAttribute/></xs:complexType>",
+              "<xs:complexType name='u'><xs:simpleContent><xs:restriction base='t'><xs:maxLength value='-1'/></xs:restriction></xs:simpleContent></xs:complexType>",
+              "<xs:complexType><xs:sequence/></xs:complexType>", "<xs:complexType name='t' mixed='maybe'/>",
+              "<xs:simpleType name='s'><xs:restriction base='xs:int'><xs:minInclusive value='5'/><xs:maxInclusive value='1'/></xs:restriction></xs:simpleType>",
+              "<xs:simpleType name='s'><xs:restriction base='s'/></xs:simpleType>", "<xs:simpleType name='s'><xs:list itemType='s'/></xs:simpleType>", "<xs:simpleType name='s'><xs:union memberTypes='xs:int s nope'/></xs:simpleType>",
+              "<xs:simpleType name='s'><xs:restriction base='xs:string'><xs:pattern value='[a-'/><xs:pattern value='(a|b)*c{2,1}'/><xs:enumeration value='x'/></xs:restriction></xs:simpleType>",
+              "<xs:simpleType name='s'><xs:restriction base='xs:decimal'><xs:totalDigits value='0'/><xs:fractionDigits value='99999999999999999999'/></xs:restriction></xs:simpleType>",
+              "<xs:attribute name='x' type='xs:ID' fixed='1' default='2'/>", "<xs:attributeGroup name='g'><xs:attributeGroup ref='g'/></xs:attributeGroup>", "<xs:group name='g'><xs:sequence><xs:group ref='g'/></xs:sequence></xs:group>",
+              "<xs:include schemaLocation='s2.xsd'/>", "<xs:import namespace='urn:o' schemaLocation='s2.xsd'/>", "<xs:redefine schemaLocation='s2.xsd'><xs:simpleType name='s'><xs:restriction base='s'/></xs:simpleType></xs:redefine>",
+              "<xs:import/>", "<xs:include schemaLocation='s.xsd'/>",
+              "<xs:element name='k'><xs:complexType><xs:sequence><xs:element name='b' maxOccurs='9'/></xs:sequence></xs:complexType><xs:key name='k1'><xs:selector xpath='.//b|'/><xs:field xpath='@x'/></xs:key><xs:keyref name='r1' refer='nokey'><xs:selector xpath='b'/><xs:field xpath='.'/></xs:keyref></xs:element>",
+              "<xs:annotation><xs:appinfo><x/></xs:appinfo><xs:documentation>&lt;</xs:documentation></xs:annotation>", "<xs:notation name='n' public='p'/>", "<xs:bogus/>", "<xs:element name='1a'/>", "text", "<xs:element", "<!--c-->"};
+}
+struct CfgSet { std::vector<Config> v; };
+static std::vector<Config> CFGS;
+static void init_cfgs(const std::string& set) {
+    // "full": complete product; "array": cores x 16-row feature array (every pair of feature values co-occurs); "small": 48 listed configurations
+    std::vector<int> apis = {SAX1, SAX2, DOM, DOMLS, PULL};
+    std::vector<unsigned> rows;
+    if (set == "full") for (unsigned m = 0; m < 128; m++) rows.push_back(m);
+    else {
+        // 16-row strength-2 covering array for 7 binary factors: rows = (bits of i) extended with parities (orthogonal-array construction)
+        for (unsigned i = 0; i < 16; i++) {
+            unsigned b0 = i & 1, b1 = (i >> 1) & 1, b2 = (i >> 2) & 1, b3 = (i >> 3) & 1;
+            unsigned f[7] = {b0, b1, b2, b3, b0 ^ b1, b1 ^ b2 ^ b3, b0 ^ b2 ^ 1u ^ (b3 & 0)};
+            unsigned m = 0; for (int k = 0; k < 7; k++) m |= f[k] << k;
+            rows.push_back(m);
+        }
+    }
+    int n = 0;
+    for (int api : apis) for (int sc = 0; sc < 4; sc++) for (int val = 0; val < 3; val++) for (unsigned m : rows) {
+        if (set == "small" && ((n++) % 20) != 0) continue;
+        Config c; c.api = api; c.scanner = sc; c.val = val;
+        c.ns = m & 1; c.schema = m & 2; c.fullcheck = m & 4; c.exitFirstFatal = !(m & 8); c.loadExtDTD = !(m & 16); c.entRefNodes = m & 32; c.secLimit = (m & 64) ? 5 : -1;
+        if (sc == SG) c.ns = true;
+        CFGS.push_back(c);
+    }
+}
+static std::string g_c01_docs = "s1";
+static uint64_t c01_ndocs() {
+    if (g_c01_docs == "s1") return words_upto(TOK.size(), g_k);
+    if (g_c01_docs == "s3") return CAT.size();
+    if (g_c01_docs == "s4") return words_upto(ITEMS.size(), g_k) * g_s4_attrs * PROLOGS.size();
+    if (g_c01_docs == "dtd") return words_upto(DTDTOK.size(), g_k) * 2;
+    if (g_c01_docs == "xsd") return words_upto(XSDTOK.size(), g_k);
+    return 0;
+}
+static DocCase c01_doc(uint64_t i) {
+    if (g_c01_docs == "s1") { DocCase d; d.doc = doc_of(i); return d; }
+    if (g_c01_docs == "s3") return CAT[i];
+    if (g_c01_docs == "s4") return s4_case(i);
+    static const std::string XENT = "<?xml version='1.0' encoding='UTF-8'?>ext<b/>", XPE = "<!ENTITY e 'frompe'><!ELEMENT c (#PCDATA)>";
+    if (g_c01_docs == "dtd") {
+        uint64_t nw = words_upto(DTDTOK.size(), g_k);
+        std::string sub; for (int t : word_at(i % nw, DTDTOK.size(), g_k)) sub += DTDTOK[t];
+        DocCase d; d.doctype = true;
+        d.files = {{"/v/x.ent", XENT}, {"/v/x.pe", XPE}};
+        if (i / nw == 0) d.doc = "<!DOCTYPE a [" + sub + "]><a x='1'>&e;<b/>&x;</a>";
+        else { d.doc = "<!DOCTYPE a SYSTEM 'e.dtd'><a x='1'>&e;<b/>&x;</a>"; d.files.push_back({"/v/e.dtd", sub}); }
+        return d;
+    }
+    // xsd
+    std::string body; for (int t : word_at(i, XSDTOK.size(), g_k)) body += XSDTOK[t];
+    DocCase d;
+    d.files = {{"/v/s.xsd", "<xs:schema xmlns:xs='http://www.w3.org/2001/XMLSchema' xmlns='urn:t' targetNamespace='urn:t' elementFormDefault='qualified'>" + body + "</xs:schema>"},
+               {"/v/s2.xsd", "<xs:schema xmlns:xs='http://www.w3.org/2001/XMLSchema' targetNamespace='urn:t'><xs:simpleType name='s'><xs:restriction base='xs:string'/></xs:simpleType></xs:schema>"}};
+    d.doc = "<a xmlns='urn:t' xmlns:xsi='http://www.w3.org/2001/XMLSchema-instance' xsi:schemaLocation='urn:t s.xsd' x='1'><b/>t<k><b x='1'/><b x='1'/></k></a>";
+    return d;
+}
+static void run_c01(uint64_t idx, Ctx& c) {
+    DocCase dc = c01_doc(idx);
+    ParseIO io; io.bytes = dc.doc;
+    uint64_t outcomes = 0;
+    for (const Config& cfg : CFGS) {
+        g_vfs->clear();
+        for (auto& f : dc.files) g_vfs->put(f.first, f.second);
+        ParseResult r = parse_xerces(cfg, io);
+        c.count("parses");
+        if (r.exc.compare(0, 7, "FOREIGN") == 0)
+            c.violation("foreign-exception", "\"doc\":" + jstr(dc.doc) + ",\"config\":" + jstr(cfg.str()) + ",\"exc\":" + jstr(r.exc) + ",\"files\":" + jstr(dc.files.empty() ? "" : dc.files.back().second));
+        if (r.fatals) c.count("outcome_fatal"); else if (!r.exc.empty()) c.count("outcome_exception"); else if (r.errs) c.count("outcome_errors"); else c.count("outcome_clean");
+        if (cfg.secLimit >= 0) {
+            // bounded expansion: with a limit of 5 no more than 5 entity references may be expanded before the fatal error
+            int rs = 0; for (auto& l : r.d.lines) if (l.compare(0, 3, "RS|") == 0) rs++;
+            if (rs > cfg.secLimit + 1) c.violation("expansion-limit-exceeded", "\"doc\":" + jstr(dc.doc) + ",\"config\":" + jstr(cfg.str()) + ",\"expansions\":" + std::to_string(rs));
+        }
+        outcomes |= 1ull << ((r.fatals ? 1 : 0) + (r.errs ? 2 : 0) + (r.exc.empty() ? 0 : 4));
+    }
+    c.count("nontrivial", __builtin_popcountll(outcomes) > 1 ? 1 : 0);  // documents whose outcome class depends on the configuration
+    if (idx % 997 == 0) c.sample("{\"doc\":" + jstr(dc.doc.substr(0, 300)) + ",\"configs\":" + std::to_string(CFGS.size()) + "}");
 }
 
 int main(int argc, char** argv) {
@@ -188,6 +584,41 @@ int main(int argc, char** argv) {
         R.fn = run_s1;
         R.describe = [](uint64_t i) { std::string d = doc_of(i); return "{\"doc\":" + jstr(d) + ",\"doc_hex\":" + jstr(hexs(d)) + "}"; };
         R.extra_json = "\"alphabet\":" + std::to_string(TOK.size()) + ",\"k\":" + std::to_string(g_k);
+    } else if (space == "s4") {
+        init_s4();
+        g_s4_attrs = (int)a.num("rootattrs", 4);
+        R.total = words_upto(ITEMS.size(), g_k) * g_s4_attrs * PROLOGS.size();
+        R.fn = run_s4;
+        R.describe = [](uint64_t i) { DocCase d = s4_case(i); return "{\"doc\":" + jstr(d.doc) + "}"; };
+        R.extra_json = "\"alphabet\":" + std::to_string(ITEMS.size()) + ",\"k\":" + std::to_string(g_k) + ",\"prologs\":" + std::to_string(PROLOGS.size());
+    } else if (space == "s3") {
+        init_s3();
+        R.total = CAT.size();
+        R.fn = run_s3;
+        R.describe = [](uint64_t i) { DocCase d = s3_case(i); return "{\"label\":" + jstr(d.label) + ",\"doc_hex\":" + jstr(hexs(d.doc)) + "}"; };
+    } else if (space == "prefix") {
+        g_s4_attrs = (int)a.num("rootattrs", 2);
+        init_prefix();
+        R.total = PFX_CUM.back();
+        R.fn = run_prefix;
+        R.describe = [](uint64_t i) { DocCase d = prefix_case(i); return "{\"doc\":" + jstr(d.doc) + ",\"doc_hex\":" + jstr(hexs(d.doc)) + "}"; };
+        R.extra_json = "\"core_documents\":" + std::to_string(PFX_DOCS.size());
+    } else if (space == "c01") {
+        g_c01_docs = a.str("docs", "s1");
+        g_s4_attrs = (int)a.num("rootattrs", 2);
+        init_s3(); init_s4(); init_c01_tokens();
+        init_cfgs(a.str("cfgset", "array"));
+        R.total = c01_ndocs();
+        R.fn = run_c01;
+        R.describe = [](uint64_t i) { DocCase d = c01_doc(i); return "{\"doc\":" + jstr(d.doc) + ",\"doc_hex\":" + jstr(hexs(d.doc)) + ",\"files\":" + jstr(d.files.empty() ? "" : d.files.back().second) + "}"; };
+        R.extra_json = "\"configs\":" + std::to_string(CFGS.size()) + ",\"k\":" + std::to_string(g_k);
+        R.case_timeout_s = 60;
+    } else if (space == "s11") {
+        init_s11();
+        R.total = words_upto(IT11.size(), g_k) * 2;
+        R.fn = run_s11;
+        R.describe = [](uint64_t i) { std::string e; int v; DocCase d = s11_case(i, e, v); return "{\"doc_hex\":" + jstr(hexs(d.doc)) + "}"; };
+        R.extra_json = "\"alphabet\":" + std::to_string(IT11.size()) + ",\"k\":" + std::to_string(g_k);
     } else {
         fprintf(stderr, "unknown space\n");
         return 2;
